@@ -242,12 +242,27 @@ func doClient(fnName string, raw []json.RawMessage) map[string]interface{} {
 		echoed = append(echoed, jsonable(v))
 	}
 	out := fn.Call(in)
+	// a caller may build several requests before it sends the first: the builder of the previous call runs once more, with
+	// the previous call's arguments, before this request is looked at (its result is dropped)
+	if pf, ok := builders[prevBuilder]; ok && prevBuilder != "" {
+		pfn := reflect.ValueOf(pf)
+		if in2, err := decodeArgs(pfn, prevBuilderArgs); err == nil {
+			func() {
+				defer func() { _ = recover() }()
+				pfn.Call(in2)
+			}()
+		}
+	}
+	prevBuilder, prevBuilderArgs = fnName, raw
 	if !out[1].IsNil() {
 		return map[string]interface{}{"builderr": out[1].Interface().(error).Error(), "sent": echoed}
 	}
 	req := out[0].Interface().(*http.Request)
 	return map[string]interface{}{"req": wireOf(req), "sent": echoed}
 }
+
+var prevBuilder string
+var prevBuilderArgs []json.RawMessage
 
 func doParse(fnName string, status int, headers [][2]string, body string) map[string]interface{} {
 	f, ok := parsers[fnName]
@@ -649,7 +664,7 @@ func fillValue(v reflect.Value, depth int, name string) {
 	case reflect.Uint, reflect.Uint8, reflect.Uint16, reflect.Uint32, reflect.Uint64:
 		v.SetUint(7)
 	case reflect.Float32, reflect.Float64:
-		v.SetFloat(1.5)
+		v.SetFloat(0.1) // not exact in binary: its text depends on the width it is formatted at
 	case reflect.Bool:
 		v.SetBool(true)
 	case reflect.Ptr:
